@@ -10,7 +10,7 @@ PARTIAL = ['C19_interleaving_partial: the multiplicative interleaving of the spa
            'bottleneck matching with cost bound 1/(1-eps) on ratios is searched (rational arithmetic, no logarithm evaluated)',
            'C19_greedy_partial: the farthest-point subsampler is not modelled; what it returned (read through the guarded hook) is checked to be a greedy permutation by the model on every run, and the theorems quantify over every greedy order',
            'C19_blocker_partial: the largest blocked-free subcomplex is the executable specification shared with C04 (compared with the code), not a theorem']
-ASSUMPTIONS = ['distinct points on the integer grid [0,15]^2 (uniform in [0,7]^2 or 2-3 clusters far apart) with the L-infinity or L1 metric (exact distances, triangle inequality holds)',
+ASSUMPTIONS = ['distinct points on the integer grid [0,15]^2 (uniform in [0,7]^2, 2-3 clusters far apart, or 7-11 points on an unevenly sampled ring) with the L-infinity or L1 metric (exact distances, triangle inequality holds)',
                'exact model comparison for eps in {1/8, 1/4, 1/2, 1, 2} (every product and quotient is exact in double); eps in {1/3, 3/4, 9/10} judged by the property oracle only',
                'diagrams compared in dimensions below dim_max']
 
@@ -150,7 +150,17 @@ def canon_oracle_only(lines): return ['cplx' if l.startswith('cplx') else l for 
 
 def gen_prefix(rng, eps_choices, maxn=9):
     n = rng.randrange(2, maxn + 1); pts = set()
-    if rng.random() < 0.6:
+    ring = rng.random() < 0.25
+    if ring:
+        # unevenly sampled ring (a 1-cycle that only long edges towards early points can fill): the delayed-edge branch matters here
+        import math
+        n = rng.randrange(7, 12); R = rng.choice([5, 6, 7])
+        angles = sorted(rng.random() * 2 * math.pi for _ in range(3 * n))
+        for a in angles:
+            if len(pts) >= n: break
+            pts.add((int(round(7 + R * math.cos(a))), int(round(7 + R * math.sin(a)))))
+        n = len(pts)
+    elif rng.random() < 0.6:
         # clusters far apart: late points have small insertion radii, so the sparsification actually removes edges
         cs = [(rng.randrange(16), rng.randrange(16)) for _ in range(rng.choice([2, 2, 3]))]
         while len(pts) < n:
@@ -160,9 +170,10 @@ def gen_prefix(rng, eps_choices, maxn=9):
         while len(pts) < n: pts.add((rng.randrange(8), rng.randrange(8)))
     pts = list(pts); rng.shuffle(pts)
     a, b = rng.choice(eps_choices)
+    if ring: a, b = max(eps_choices, key=lambda e: (e[0] / e[1] if e[0] < e[1] else 0))       # the largest eps below 1 of this stream
     lines = ['pts %d %s' % (n, ' '.join('%d %d' % p for p in pts)), 'metric %s' % rng.choice(['linf', 'l1']), 'eps %d %d' % (a, b)]
-    if rng.random() < 0.25: lines.append('bounds %s %s' % (rng.choice(['ninf', '1', '2', '3']), rng.choice(['inf', '4', '6', '9'])))
-    lines.append('dim %d' % rng.choice([1, 2, 2, 3]))
+    if rng.random() < 0.25 and not ring: lines.append('bounds %s %s' % (rng.choice(['ninf', '1', '2', '3']), rng.choice(['inf', '4', '6', '9'])))
+    lines.append('dim %d' % (2 if ring else rng.choice([1, 2, 2, 3])))
     lines.append('start %d' % rng.randrange(n))
     return lines
 
